@@ -2773,7 +2773,8 @@ class Group(System):
             d_residuals = self._dresiduals
 
             if mode == 'fwd':
-                if self._has_resid_scaling:
+                # outputs and residuals may be scaled differently (e.g., when only ref0 is given)
+                if self._has_resid_scaling or self._has_output_scaling:
                     with self._unscaled_context(outputs=[d_outputs], residuals=[d_residuals]):
                         d_outputs.set_vec(d_residuals)
                 else:
@@ -2783,7 +2784,7 @@ class Group(System):
                 d_outputs *= -1.0
 
             else:  # rev
-                if self._has_resid_scaling:
+                if self._has_resid_scaling or self._has_output_scaling:
                     with self._unscaled_context(outputs=[d_outputs], residuals=[d_residuals]):
                         d_residuals.set_vec(d_outputs)
                 else:
